@@ -93,8 +93,8 @@ Definition s_bsnl : str := [92; 10].              (* backslash newline *)
    c is a backslash && !bytes.HasPrefix(rest, backslash newline) *)
 Definition valid_escape_at (rest : list N) : bool :=
   match rest with
-  | 92 :: r => negb (has_prefix [10] r)
-  | _ => false
+  | c :: r => (c =? 92) && negb (has_prefix [10] r)
+  | [] => false
   end.
 
 (* ------------------------------------------------------------------ escapes (tokenizer.go:518-540) *)
@@ -187,8 +187,8 @@ Definition consume_unicode_range (rest : list N) : option (N * N) * list N :=
       (h ++ repeat 48 nq, h ++ repeat 70 nq, r2)            (* :341-342 *)
     else
       match r2 with
-      | 45 :: c1 :: r' =>                                   (* :343 tk.pos+1 < length && '-' && hex *)
-          if is_hex c1 then
+      | c0 :: c1 :: r' =>                                   (* :343 tk.pos+1 < length && '-' && hex *)
+          if (c0 =? 45) && is_hex c1 then
             let '(h2, r4) := take_while_n is_hex 6 (c1 :: r') in
             (h, h2, r4)
           else (h, h, r2)
@@ -202,8 +202,8 @@ Definition consume_unicode_range (rest : list N) : option (N * N) * list N :=
 (* tryConsumeUnicodeRune, tokenizer.go:555-566; rest starts at 'U'/'u' *)
 Definition try_consume_unicode_range (p : pos) (rest : list N) : option (token * list N) :=
   match rest with
-  | _ :: 43 :: c2 :: r =>
-      if is_hex c2 || (c2 =? 63) then
+  | _ :: c1 :: c2 :: r =>
+      if (c1 =? 43) && (is_hex c2 || (c2 =? 63)) then
         let '(o, r') := consume_unicode_range (c2 :: r) in
         match o with
         | Some (s, e) => Some (TUnicodeRange p s e, r')
@@ -226,12 +226,12 @@ Fixpoint quoted_loop (fuel : nat) (quote : N) (rest : list N) : res (str * bool 
           else if c =? 92 then                              (* :489 *)
             match r with
             | [] => Ok ([], true, errEofInString, [])        (* escaped EOF: nothing *)
-            | 10 :: r' =>                                   (* :493 escaped newline ignored *)
-                let* (v, add, e, r2) := quoted_loop f quote r' in Ok (v, add, e, r2)
-            | _ =>
-                let '(ch, r1) := consume_escape r in
-                let* (v, add, e, r2) := quoted_loop f quote r1 in
-                Ok (if add then write_rune ch :: v else v, add, e, r2)
+            | d :: r' =>
+                if d =? 10 then quoted_loop f quote r'      (* :493 escaped newline ignored *)
+                else
+                  let '(ch, r1) := consume_escape r in
+                  let* (v, add, e, r2) := quoted_loop f quote r1 in
+                  Ok (if add then write_rune ch :: v else v, add, e, r2)
             end
           else if c =? 10 then Ok ([], false, errBadString, rest)   (* :501 newline NOT consumed *)
           else
@@ -352,13 +352,15 @@ Definition scan_number (rest : list N) : option (str * list N) :=
   let mant :=
     let plain := match d1 with [] => None | _ => Some (d1, r1) end in
     match r1 with
-    | 46 :: r2 =>
-        let '(d2, r3) := span is_digit r2 in
-        match d2 with
-        | [] => plain                        (* group backtracks to absent *)
-        | _ => Some (d1 ++ 46 :: d2, r3)
-        end
-    | _ => plain
+    | c :: r2 =>
+        if c =? 46 then
+          let '(d2, r3) := span is_digit r2 in
+          match d2 with
+          | [] => plain                        (* group backtracks to absent *)
+          | _ => Some (d1 ++ 46 :: d2, r3)
+          end
+        else plain
+    | [] => plain
     end in
   match mant with
   | None => None
@@ -392,9 +394,8 @@ Definition digits_value (d : list N) : N := fold_left (fun acc c => acc * 10 + (
 Definition repr_int (repr : str) : option Z :=
   let '(neg, d) :=
     match repr with
-    | 45 :: r => (true, r)
-    | 43 :: r => (false, r)
-    | _ => (false, repr)
+    | c :: r => if c =? 45 then (true, r) else if c =? 43 then (false, r) else (false, repr)
+    | [] => (false, repr)
     end in
   match d with
   | [] => None
@@ -420,8 +421,10 @@ Definition try_consume_number (fx : bool) (fuel : nat) (p : pos) (rest : list N)
         Ok (Some (TDimension p repr isint unit, r2))
       else
         match r1 with
-        | 37 :: r2 => Ok (Some (TPercentage p repr isint, r2))                     (* :620 *)
-        | _ => Ok (Some (TNumber p repr isint, r1))
+        | c :: r2 =>
+            if c =? 37 then Ok (Some (TPercentage p repr isint, r2))               (* :620 *)
+            else Ok (Some (TNumber p repr isint, r1))
+        | [] => Ok (Some (TNumber p repr isint, r1))
         end
   end.
 
@@ -540,12 +543,14 @@ Definition lex1 (fx skip : bool) (fuel : nat) (endc : N) (p : pos) (rest : list 
       if ids then
         let* (value, r1) := consume_ident fuel rest in
         match r1 with
-        | 40 :: r2 =>                                                     (* :716 skip "(" *)
-            if str_eqb (ascii_lower value) s_url && url_is_unquoted r2 then   (* :717-722 *)
-              let* (v, e, r3) := consume_url fx fuel p r2 in
-              Ok (LTok (opt_list v ++ opt_list e) r3)
-            else Ok (LOpen (OFunction value) r2)
-        | _ => Ok (LTok [TIdent p value] r1)                               (* :712 *)
+        | c1 :: r2 =>
+            if c1 =? 40 then                                              (* :716 skip the left paren *)
+              if str_eqb (ascii_lower value) s_url && url_is_unquoted r2 then   (* :717-722 *)
+                let* (v, e, r3) := consume_url fx fuel p r2 in
+                Ok (LTok (opt_list v ++ opt_list e) r3)
+              else Ok (LOpen (OFunction value) r2)
+            else Ok (LTok [TIdent p value] r1)                             (* :712 *)
+        | [] => Ok (LTok [TIdent p value] r1)
         end
       else
       let* num := try_consume_number fx fuel p rest in                     (* :741 *)
@@ -625,8 +630,8 @@ Fixpoint preprocess (s : list N) : list N :=
       if c =? 0 then 65533 :: preprocess r
       else if c =? 13 then
         match r with
-        | 10 :: r' => 10 :: preprocess r'
-        | _ => 10 :: preprocess r
+        | d :: r' => if d =? 10 then 10 :: preprocess r' else 10 :: preprocess r
+        | [] => [10]
         end
       else if c =? 12 then 10 :: preprocess r
       else c :: preprocess r
@@ -647,18 +652,18 @@ Definition tokenize (fx skip : bool) (s : list N) : res (list token) :=
 Definition repr_value (repr : str) : Q :=
   let '(neg, r0) :=
     match repr with
-    | 45 :: r => (true, r)
-    | 43 :: r => (false, r)
-    | _ => (false, repr)
+    | c :: r => if c =? 45 then (true, r) else if c =? 43 then (false, r) else (false, repr)
+    | [] => (false, repr)
     end in
   let '(d1, r1) := span is_digit r0 in
-  let '(d2, r2) := match r1 with 46 :: r => span is_digit r | _ => ([], r1) end in
+  let '(d2, r2) := match r1 with c :: r => if c =? 46 then span is_digit r else ([], r1) | [] => ([], r1) end in
   let ex : Z :=
     match r2 with
-    | _ :: 45 :: d3 => (- Z.of_N (digits_value d3))%Z
-    | _ :: 43 :: d3 => Z.of_N (digits_value d3)
-    | _ :: d3 => Z.of_N (digits_value d3)
-    | [] => 0%Z
+    | _ :: c :: d3 =>
+        if c =? 45 then (- Z.of_N (digits_value d3))%Z
+        else if c =? 43 then Z.of_N (digits_value d3)
+        else Z.of_N (digits_value (c :: d3))
+    | _ => 0%Z
     end in
   let m : Z := Z.of_N (digits_value (d1 ++ d2)) in
   let e : Z := (ex - Z.of_nat (length d2))%Z in
